@@ -328,7 +328,7 @@ func getParentConflictingRecord(ctx storage.Context, name string, fragments []st
 	for iterator.Next(it) {
 		r := iterator.Value(it).(RecordState)
 		ind := std.MemorySearchLastIndex([]byte(r.Name), suffix, len(r.Name))
-		if ind > 0 && ind+len(suffix) == len(r.Name) {
+		if ind > 0 && ind+len(suffix) == len(r.Name) && r.Name[ind-1] == '.' {
 			return r.Name
 		}
 	}
